@@ -131,6 +131,20 @@ theorem dict_text_same_in_any_insertion_order (l₁ l₂ : Dict) (hp : l₁.Perm
     typeFmt (.dict l₁) = typeFmt (.dict l₂) ∧ fmtField (.dict l₁) = fmtField (.dict l₂) :=
   dict_text_perm l₁ l₂ hp hnd
 
+/-- **A set argument has one text whatever order it iterates in** (D50): the texts of the elements are
+sorted before they are joined, so two lists of elements that are permutations of each other — the same
+Python set built in another order — render alike on both formatter paths.  (Like for dicts: proved for
+the rendered text of a top-level set; the lift to whole calls rests on the correspondence.) -/
+theorem set_text_same_in_any_iteration_order (l₁ l₂ : List PyVal) (hp : l₁.Perm l₂) :
+    typeFmt (.set l₁) = typeFmt (.set l₂) ∧ fmtField (.set l₁) = fmtField (.set l₂) :=
+  set_text_perm l₁ l₂ hp
+
+/-- `{1, 9}` and `{9, 1}` are both `1:9`; elements whose texts coincide stay both (`{1, '1'}` is `1:1`) -/
+example : typeFmt (.set [.int 9, .int 1]) = "1:9".toList ∧ typeFmt (.set [.int 1, .int 9]) = "1:9".toList ∧
+    typeFmt (.set [.str ['1'], .int 1]) = "1:1".toList ∧ typeFmt (.set []) = [] ∧
+    cacheKey [{ name := ['a'], kind := .pos }] (autoTemplate ['m'] ['f'] ['f'] [] [{ name := ['a'], kind := .pos }]) {}
+      ⟨[.set [.str ['b'], .str ['a']]], []⟩ = some "m:f:a:a:b".toList := by decide
+
 /-- non-vacuity: `def f(**kw)`: `f(x=1, y=2)` and `f(y=2, x=1)`; the key is `m:f:x:1:y:2` -/
 example : cacheKey [{ name := ['k', 'w'], kind := .varKw }] [.lit ['m'], .field KWARGS] {}
       ⟨[], [(['y'], .int 2), (['x'], .int 1)]⟩ =
@@ -178,6 +192,40 @@ difference in a mentioned field). -/
 theorem auto_template_mentions_every_parameter (mod name qual : Str) (sig : Sig) :
     (autoTemplate mod name qual [] sig).fields = sig.map paramKey := by
   simp [autoTemplate, Tmpl.fields, fields_autoItems_nil]
+
+/-- **Exclusion is by whole names.**  The generated template mentions exactly the parameters whose
+name (as a whole string) is not in the exclusion list — a parameter called `s`, `e`, `l`, `f`, `se`,
+`elf` ... is not touched by excluding `self`. -/
+theorem auto_template_mentions_exactly_the_unexcluded (mod name qual : Str) (excl : List Str) (sig : Sig) :
+    (autoTemplate mod name qual excl sig).fields = (sig.map paramKey).filter (fun n => !(excl.contains n)) := by
+  have h : ∀ sig : Sig, Tmpl.fields (autoItems excl sig) = (sig.map paramKey).filter (fun n => !(excl.contains n)) := by
+    intro sig
+    induction sig with
+    | nil => simp [autoItems, Tmpl.fields]
+    | cons p r ih =>
+      unfold autoItems
+      by_cases hp : paramKey p ∈ excl
+      · simp [hp, ih]
+      · simp only [hp, if_false, List.map_cons]
+        cases hk : p.kind <;> simp [paramKey, hk] at hp <;> simp [Tmpl.fields, ih, paramKey, hk, hp]
+  simp [autoTemplate, Tmpl.fields, h]
+
+/-- **`noself` drops the receiver and nothing else**: the template `noself` hands to the decorator
+mentions every parameter except the one named exactly `self` (and is separated, like every generated
+template), so calls that differ in any other parameter are still told apart. -/
+theorem noself_template_mentions_all_but_self (mod name qual : Str) (sig : Sig) :
+    separated (noselfTemplate mod name qual sig) = true ∧
+    ∀ p ∈ sig, paramKey p ≠ SELF → paramKey p ∈ (noselfTemplate mod name qual sig).fields := by
+  refine ⟨auto_template_separated _ _ _ _ _, ?_⟩
+  intro p hp hne
+  rw [noselfTemplate, auto_template_mentions_exactly_the_unexcluded]
+  simp only [List.mem_filter, List.mem_map]
+  exact ⟨⟨p, hp, rfl⟩, by simpa using hne⟩
+
+/-- `def read(self, f, e)`: `noself` keeps `f` and `e` -/
+example : (noselfTemplate ['m'] ['r'] ['K', '.', 'r']
+      [{ name := SELF, kind := .pos }, { name := ['f'], kind := .pos }, { name := ['e'], kind := .pos }]).toFormat =
+    "m:K.r:f:{f}:e:{e}".toList := by decide
 
 /-- **Values of one type render differently** — for str, int, bool and None the field text
 determines the value. (`bytes` is the exception: `bytes_rendering_collides`.) -/
@@ -385,6 +433,38 @@ example :
 example : typeFmt (.bytes [0xc3, 0xa9]) = ['\u00e9'] ∧
     typeFmt (.bytes [0x65, 0xcc, 0x81]) = ['e', '\u0301'] ∧
     typeFmt (.bytes [0xf0, 0x9f, 0x98, 0x80]) = [Char.ofNat 0x1F600] := by decide
+
+/-! ### the second key of a decorated call: single flight -/
+
+/-- **The single-flight key is exactly as fine as the cache key.**  A cache decorator stores under
+`decoratorKey` (template with the optional prefix) and joins concurrent calls under `flightKey` (the
+same template without the prefix): for every signature, template, prefix and context two calls share
+one of them iff they share the other — so a call can only join the in-flight execution of a call
+whose cached result it would also be served, and (with `key_separates_calls`) never that of a call
+with distinguishable bound arguments. -/
+theorem flight_key_shared_iff_cache_key_shared (sig : Sig) (pfx : Str) (t : Tmpl) (ctx : Ctx) (c₁ c₂ : Call) :
+    flightKey sig t ctx c₁ = flightKey sig t ctx c₂ ↔
+      decoratorKey sig pfx t ctx c₁ = decoratorKey sig pfx t ctx c₂ := by
+  unfold flightKey decoratorKey withPrefix
+  by_cases hp : pfx = []
+  · simp [hp]
+  · simp only [hp, if_false]
+    have hr : ∀ vals : Dict, render (.lit (pfx ++ [':']) :: t) vals = (pfx ++ [':']) ++ render t vals := by
+      intro vals
+      simp [render, renderWith, fastPath, Tmpl.fields]
+    simp only [cacheKey]
+    cases h₁ : callValues sig c₁ <;> cases h₂ : callValues sig c₂ <;> simp [hr]
+
+/-- a method on two receivers: `K.get(eu, '/u')` and `K.get(us, '/u')` have different cache keys and
+different single-flight keys; the positional and the keyword form of one call share both -/
+example :
+    let sig : Sig := [{ name := SELF, kind := .pos }, { name := ['p'], kind := .pos }]
+    let t := autoTemplate ['m'] ['g'] ['K', '.', 'g'] [] sig
+    flightKey sig t {} ⟨[.str ['e', 'u'], .str ['/', 'u']], []⟩ ≠ flightKey sig t {} ⟨[.str ['u', 's'], .str ['/', 'u']], []⟩ ∧
+    flightKey sig t {} ⟨[.str ['e', 'u'], .str ['/', 'u']], []⟩ =
+      flightKey sig t {} ⟨[.str ['e', 'u']], [(['p'], .str ['/', 'u'])]⟩ ∧
+    decoratorKey sig ['v', '1'] t {} ⟨[.str ['e', 'u'], .str ['/', 'u']], []⟩ = some "v1:m:K.g:self:eu:p:/u".toList := by
+  decide
 
 /-! ### what is excluded, with witnesses -/
 
